@@ -172,7 +172,10 @@ def register(reg):
         return o
 
     def make_expr_nodes(it, env):
-        """the expression itself: one node (seen from LatexExpressionParser.parse)"""
+        """the expression itself: one node (seen from LatexExpressionParser.parse); in tolerant mode possibly nothing at all
+        (end of input where an expression was expected)"""
+        if it.ctx.choose(2, 'the single-token step found an expression') == 1:
+            return PyList([])
         p = it.ctx.fresh_int('expr.pos')
         e = it.ctx.fresh_int('expr.pos_end')
         it.ctx.assume(z3.And(0 <= p, p <= e))
@@ -195,6 +198,7 @@ def register(reg):
                   "last_token().tok == 'macro', not (last_token().arg in ('begin', 'end')))" % TOLW),
                  ('single-token-node-covers-its-token-and-the-reader-stands-at-its-end',
                   'nodes_span_token(result, %s)' % RDP),
+                 ('one-node-or-nothing-and-nothing-only-in-tolerant-mode', 'len(result) == 1 or (len(result) == 0 and %s)' % TOLW),
                  ('reader-never-moves-backwards', 'old(%s) <= %s and %s <= len(latex_walker.s)' % (RDP, RDP, RDP))],
         result_make=make_expr_nodes,
         raises={EXC + 'LatexWalkerNodesParseError': {'make': lambda it, env: make_err(it, env, 'LatexWalkerNodesParseError'), 'ensures': [LOC]},
@@ -321,6 +325,15 @@ def register(reg):
         ensures=[('internal:comments-read-on-the-way-to-the-expression-stay-in-the-tree', 'keeps_skipped_comments(result[0])')],
         raises={EXC + 'LatexWalkerNodesParseError': {'ensures': [LOC]}, EXC + 'LatexWalkerParseError': {'ensures': [LOC]}},
         modifies=[('token_reader._pos', 'int'), ('latex_walker._line_no_calc', lambda it, hint, cur=None: cur)])
+    c_expr_tot = Contract(
+        EXPR + '.parse', setup=setup_expr,
+        requires=c_expr.requires,
+        ensures=[('always-hands-back-a-node-or-a-node-list', 'result[0] is not None and result[1] is None')],
+        raises={EXC + 'LatexWalkerNodesParseError': {'ensures': [LOC]}, EXC + 'LatexWalkerParseError': {'ensures': [LOC]}},
+        modifies=[('token_reader._pos', 'int'), ('latex_walker._line_no_calc', lambda it, hint, cur=None: cur)])
+    EXPR_INLINE = {W + '.make_nodelist', W + '.make_node', NODES + 'LatexNodeList.__init__', NODES + 'LatexNodeList.__getitem__',
+                   NODES + 'LatexNodeList.__len__', NODES + '_update_posposend_from_nodelist'}
+    units['LatexExpressionParser.parse[no other exception, in either mode]'] = FunctionUnit(c_expr_tot, inline=EXPR_INLINE, split_depth=4)
     expr_units = {'LatexExpressionParser.parse': FunctionUnit(c_expr, inline={
         W + '.make_nodelist', W + '.make_node', NODES + 'LatexNodeList.__init__', NODES + 'LatexNodeList.__getitem__',
         NODES + 'LatexNodeList.__len__', NODES + '_update_posposend_from_nodelist'}, split_depth=4)}
